@@ -1,0 +1,15 @@
+//go:build verif
+
+package sync
+
+import "bytes"
+
+// verifOnPut overwrites the whole backing array of a buffer which is returned to
+// the pool, so every slice that still aliases it becomes visibly corrupted.
+func verifOnPut(b *bytes.Buffer) {
+	buf := b.Bytes()
+	buf = buf[:cap(buf)]
+	for i := range buf {
+		buf[i] = 0xDD
+	}
+}
